@@ -242,7 +242,7 @@ func Scenarios(tier string) []run.Scenario {
 	attempts := 4
 	if tier == "thorough" {
 		outcomes = append(outcomes, rv("7x"), rv("-1"), rv(""), ch.Outcome{Kind: "ok", Stream: "retry:3\nretry:9\n\n", End: "err"})
-		attempts = 5
+		attempts = 4
 	}
 	for _, init := range []time.Duration{0, time.Microsecond, time.Second} {
 		in := init
@@ -273,8 +273,9 @@ func Scenarios(tier string) []run.Scenario {
 							if (mr == 3 || mr == 0) && (tier == "thorough" || init == time.Microsecond) {
 								// longer histories (growth, cap and MaxRetries need several consecutive failures)
 								p.MaxAttempts = attempts + 2
-								if tier != "thorough" {
-									p.Outcomes = outcomes[:3] // {fail, connect+drop, retry:7}
+								p.Outcomes = outcomes[:3] // {fail, connect+drop, retry:7}
+								if tier == "thorough" {
+									p.MaxAttempts = attempts + 3
 								}
 								add(p)
 							}
